@@ -1,7 +1,16 @@
 #!/bin/sh
-# thorough tier: same rules on a VTA-refined call graph, plus (when seeded/ exists) the seeded-variant matrix.
+# thorough tier: the same rules on a VTA-refined call graph, plus the seeded-variant matrix of the property as a
+# self-test of the checker (each kept seed of the property is applied to a scratch copy of /repo's working tree outside
+# /repo and /verif, analysed, and removed). The exit status is the property check's; self-test results are informational.
 set -u
 HERE="$(cd "$(dirname "$0")" && pwd)"
 PROP="$1"
 "$HERE/bin/finlint" -repo "${VERIF_REPO:-/repo}" -verif "$HERE" -property "$PROP" -tier thorough
-exit $?
+RC=$?
+if [ -d "$HERE/seeded" ]; then
+  for d in "$HERE"/seeded/"$PROP"-*/; do
+    [ -f "$d/patch.diff" ] || continue
+    "$HERE/tools/seedrun.sh" "${d%/}" "$PROP" | grep -E "^C[0-9]+-" | sed 's/^/selftest: /'
+  done
+fi
+exit $RC
